@@ -63,6 +63,31 @@ Theorem C11_ll_start_llid :
     exists d ds, send_sdu_ll mtu cid sdu = (2%N, d) :: map (fun q => (1%N, q)) ds.
 Proof. exact ll_start_llid. Qed.
 
+(** MTU bookkeeping: whatever sequence of set_local_mtu / set_remote_mtu calls came before,
+    fragmentation follows the peer's (remote) MTU as last announced: the payload bound and
+    the inverse hold with respect to it, and a later local update does not change it. *)
+Theorem C11_mtu_history_payload_bound :
+  forall (ops : list mtu_op) (cid : N) (sdu : bytes),
+    2 <= remote_mtu (mtu_run ops) ->
+    Forall (fun f : frag => length (snd f) <= remote_mtu (mtu_run ops) + 4) (send_after ops cid sdu).
+Proof. exact payload_bound_after. Qed.
+
+Theorem C11_mtu_history_reassembly :
+  forall (ops : list mtu_op) (cid : N) (sdu : bytes) (st0 : rx),
+    2 <= remote_mtu (mtu_run ops) -> (nlen sdu < 65536)%N -> (cid < 65536)%N ->
+    recv_all st0 (send_after ops cid sdu)
+    = (deliverable cid sdu, {| fifo := None; expected := length sdu + 4 |}).
+Proof. exact reassembly_after. Qed.
+
+Theorem C11_mtu_last_remote_wins :
+  forall ops m, remote_mtu (mtu_run (ops ++ [SetRemote m])) = m
+             /\ m <= local_mtu (mtu_run (ops ++ [SetRemote m])).
+Proof. exact mtu_last_remote_wins. Qed.
+
+Theorem C11_mtu_set_local_keeps_remote :
+  forall ops m, remote_mtu (mtu_run (ops ++ [SetLocal m])) = remote_mtu (mtu_run ops).
+Proof. exact remote_after_set_local. Qed.
+
 (** Truncated frames deliver nothing; oversized ones are cut to the announced length. *)
 Theorem C11_truncated_dropped :
   forall st d, 2 <= length d -> length d < N.to_nat (un_le16 d) + 4 ->
